@@ -310,6 +310,24 @@ impl<'ast> Visit<'ast> for LoopFinder {
                 }
             }
         }
+        // D37: BUF.extend(X.iter().copied())
+        if e.method == "extend" && e.args.len() == 1 {
+            if let syn::Expr::MethodCall(cp) = &e.args[0] {
+                if cp.method == "copied" && cp.args.is_empty() {
+                    if let syn::Expr::MethodCall(it) = &*cp.receiver {
+                        if it.method == "iter" && it.args.is_empty() {
+                            let call = e.span().byte_range();
+                            let recv = e.receiver.span().byte_range();
+                            let src_ = it.receiver.span().byte_range();
+                            self.vd.push(format!(
+                                "{{\"rule\":\"D37\",\"call\":[{},{}],\"recv\":[{},{}],\"src\":[{},{}]}}",
+                                call.start, call.end, recv.start, recv.end, src_.start, src_.end
+                            ));
+                        }
+                    }
+                }
+            }
+        }
         // D26: OPT.or_else(|| E)
         if e.method == "or_else" && e.args.len() == 1 {
             if let syn::Expr::Closure(c) = &e.args[0] {
